@@ -220,6 +220,20 @@ SOLO_COMPOSITES = [
     L("allof_prop_enum", {"allOf": [obj({"name": STR, "k": {"type": "string", "enum": ["a", "b"]}}, ["name"]), obj({"k": {"type": "string", "enum": ["b", "c"]}})]}),
     L("allof_prop_obj", {"allOf": [obj({"name": STR, "o": obj({"x": INT})}, ["name"]), obj({"o": obj({"y": STR}, ["y"])})]}),
     L("allof_prop_array", {"allOf": [obj({"name": STR, "v": {"type": "array", "items": INT}}, ["name"]), obj({"v": {"type": "array", "minItems": 1}})]}),
+    # scale family: containers past any plausible small-size fast path (> 16 / > 32 entries)
+    L("enum_20", {"type": "string", "enum": ["v%02d" % i for i in range(20)]}, enf=True, strish=True),
+    L("struct_20", obj({"m%02d" % i: (INT if i % 2 else STR) for i in range(20)}, ["m00", "m01"]), enf=True),
+    L("ext_20", {"oneOf": [{"type": "string", "enum": ["u%02d" % i for i in range(10)]}] +
+                          [obj({"V%02d" % i: INT}, ["V%02d" % i], additionalProperties=False) for i in range(10)]}, enf=True),
+    L("int_tag_18", {"oneOf": [obj({"t": {"type": "string", "enum": ["k%02d" % i]}, "x%02d" % i: INT}, ["t"]) for i in range(18)]}, enf=True),
+    L("untagged_17", {"oneOf": [obj({"p%02d" % i: INT}, ["p%02d" % i], additionalProperties=False) for i in range(16)] + [STR]}, enf=False),
+    L("allof_enum_20_18", {"allOf": [{"$ref": "#/definitions/XRegion"}, {"$ref": "#/definitions/XSupported"}]}, enf=True, strish=True, sup=False,
+      defs={"XRegion": {"type": "string", "enum": ["r%02d" % i for i in range(20)]},
+            "XSupported": {"type": "string", "enum": ["r%02d" % i for i in reversed(range(2, 20))] + ["zz1", "zz2"]}}),
+    L("allof_objs_17", {"allOf": [obj({"q%02d" % i: INT}) for i in range(17)]}, enf=False, sup=False),
+    L("map_of_enum_20", {"type": "object", "additionalProperties": INT, "propertyNames": {"type": "string", "enum": ["k%02d" % i for i in range(20)]}}, ff=False, enf=False),
+    L("tuple_13", {"type": "array", "items": [INT if i % 2 else STR for i in range(13)], "minItems": 13, "maxItems": 13}, enf=True),
+    L("array_33", {"type": "array", "items": INT, "minItems": 33, "maxItems": 33}, enf=True),
     # arms found unexercised by a coverage run of the quick tier (instrumented adapter, development aid): untyped enums of one implied type,
     # string enum listing null, $ref with validation siblings, reference chains, an unsatisfiable subschema mix, not-enum over numbers
     L("enum_str_with_null", {"type": "string", "enum": ["a", "b", None]}, enf=False, ff=False, sup=False),   # "invalid JSON Schema" by the code's own comment: best effort only
